@@ -160,6 +160,19 @@ def make_ec(rng, clsmap):
       a = gen.ec_key(rng, slot, 'secp256r1', d=rng.randrange(2 ** 32 - 2 ** 20, 2 ** 32), cls='weakprivate')
       a.meta['crit'] = dict(a.meta['crit'], CheckWeakECPrivateKey='must')
       arts[slot] = a
+    elif c.startswith('weakprivateedge') and c[15:].isdigit():
+      # a 32-bit private value that is reached through the LAST entry of the baby-step table when exactly b keys of secp256r1 are
+      # searched together: ExtendedBatchDL derives 36 points per key, BatchDL builds a table of T = isqrt(2^32 * 36 * b) multiples
+      # and takes giant steps of 2T - 1 (Bsgs.tla); d = j (2T - 1) + (T - 1)
+      import math
+      b_ = int(c[15:])
+      T = math.isqrt(2 ** 32 * 36 * b_)
+      t = 2 * T - 1
+      j = rng.randrange(1, (2 ** 32 - T) // t)
+      sign = rng.choice([1, -1])
+      a = gen.ec_key(rng, slot, 'secp256r1', d=j * t + sign * (T - 1), cls='weakprivate')
+      a.meta['crit'] = dict(a.meta['crit'], CheckWeakECPrivateKey='must')
+      arts[slot] = a
     elif c in ('closeA', 'closeB'):
       if close_d is None:
         close_d = rng.randrange(2 ** 200, 2 ** 250)
